@@ -140,8 +140,11 @@ SIZES = st.one_of(st.sampled_from([0, 1, 2, 3, 4, 5, 7, 8, 9, 15, 16, 17, 31, 32
 @st.composite
 def _track(draw, min_n=0, max_nf=2):
     n = max(min_n, draw(SIZES))
-    hi = draw(st.sampled_from([0, 1, 2, max(1, n // 2), n + 2, 3 * n + 3]))
-    qs = [2 * k for k in draw(st.lists(st.integers(0, hi), min_size=n, max_size=n))]
+    hi = draw(st.sampled_from([-1, 0, 1, 2, max(1, n // 2), n + 2, 3 * n + 3]))
+    if hi < 0:                                               # all stamps distinct
+        qs = [2 * k for k in draw(st.permutations(list(range(n))))]
+    else:
+        qs = [2 * k for k in draw(st.lists(st.integers(0, hi), min_size=n, max_size=n))]
     order = draw(st.sampled_from(["shuffled", "sorted", "reverse"]))
     if order == "sorted":
         qs.sort()
